@@ -160,6 +160,12 @@ class MarginLoans(base.LendingStrategy):
     def _check_margin_level(
             self, updated_balances: ValueMapDict, updated_holds: ValueMapDict, updated_borrowed: ValueMapDict
     ):
+        assert self._exchange_ctx, "Not yet connected with the exchange"
+        acc_balances = self._exchange_ctx.account_balances
+        # The margin level doesn't depend on holds, so updates that only change holds can't make it worse.
+        if updated_balances == acc_balances.balances and updated_borrowed == acc_balances.borrowed:
+            return
+
         margin_level = self._calculate_margin_level(updated_balances, updated_holds, updated_borrowed)
         if margin_level > Decimal(0) and margin_level < Decimal(100):
             raise errors.NotEnoughBalance(f"Margin level too low {margin_level}")
